@@ -36,6 +36,7 @@ struct Plan {
     std::vector<Mut> mut;
     std::vector<Inj> inj;
     std::vector<Stall> stall;
+    std::vector<uint64_t> restart;  // times at which the (tunnel) talker process is killed and started again
     std::string mode_str() const;  // e.g. "ntscf,raw,classic"
 };
 
